@@ -25,6 +25,7 @@ RULES = {
 }
 PROBES = ["write_mem", "write_sfr", "write_readonly_or_unassigned", "read_unassigned", "read_after_write_same_reg",
           "abort_in_command", "abort_in_data", "abort_last_bit_missing", "abort_mid_clock", "abort_right_after_command",
+          "cs_released_in_sck_rise_cycle", "cs_released_in_sck_fall_cycle",
           "overrun_bits_after_word", "cs_gap_lt_4_after_abort", "cs_released_1_cycle_after_last_edge", "requick_after_command_abort", "sfr_input_changed_in_data_phase", "narrow_mem_register",
           "autonegotiation_register_read", "sdo_bits_checked", "jittered_clock"]
 META = {
@@ -33,7 +34,8 @@ META = {
     "assumptions": ["SPI pins change synchronously to the system clock; SCK idles low; every SCK half-period >= 3 system cycles "
                     "(the interface needs 5 cycles between the last command bit and the first data bit: a clock-rate limit of the "
                     "design, not part of the statement)",
-                    "CS changes >= 1 cycle away from SCK edges; CS inactive >= 2 cycles between transactions",
+                    "CS is asserted >= 1 cycle away from SCK edges and inactive >= 2 cycles between transactions; CS may be released in "
+                    "the very cycle of an SCK edge, but only in transactions that are incomplete whether or not that edge's bit counts",
                     "a transaction is complete iff all command and data bits were sampled while CS was active; otherwise aborted",
                     "SFR read inputs change only while CS is inactive or after the second data bit (the latch instant is not "
                     "part of the statement)",
@@ -107,6 +109,12 @@ def gen(rng, tier, index):
               "gap": rng.choice([2, 2, 3, 3, 4, 5, 8, 12]), "setup": rng.choice([1, 2, 3, 6]), "hold": rng.choice([1, 1, 2, 3, 6])}
         if nbits < total and rng.random() < 0.3:
             op["abort_mid_clock"] = rng.randint(1, 4)
+            if rng.random() < 0.35:
+                # CS released in the very cycle of an SCK edge: the leading edge of the next bit ("rise"), or the trailing
+                # (sample) edge of the last bit sent ("fall").  Only for transactions that stay incomplete even if that
+                # bit is counted, so the outcome does not depend on whether the coincident bit was sampled.
+                del op["abort_mid_clock"]
+                op["release_on_edge"] = rng.choice(["rise", "fall", "fall"])
         elif rng.random() < 0.3:
             op["last_low"] = rng.choice([1, 1, 2, 3])         # CS released this many cycles after the last falling edge
         sfr_set = {}
@@ -181,16 +189,24 @@ def build(scn):
         txn = w.begin(op["gap"], op["setup"])
         txn["op"] = op
         txn["sfr_at_boundary"] = None
+        roe = op.get("release_on_edge") if n < a + 1 + r else None
         for i, b in enumerate(bits):
             h1, h2 = op["halves"][i % len(op["halves"])]
-            if i == len(bits) - 1 and op.get("last_low") and not op.get("abort_mid_clock"):
+            if i == len(bits) - 1 and roe == "fall":
+                h2 = 0
+            elif i == len(bits) - 1 and op.get("last_low") and not op.get("abort_mid_clock"):
                 h2 = op["last_low"]
             w.bit(b, h1, h2)
             if i == a + 2 and op.get("sfr_mid"):
                 w.set(**{f"rd{k}": v for k, v in op["sfr_mid"].items() if f"rd{k}" in extra})
                 txn["sfr_mid_applied"] = True
         amc = op.get("abort_mid_clock")
-        if amc and n < a + 1 + r:
+        if roe == "rise":
+            w.half_bit(1, 0)
+            w.end(0)
+        elif roe == "fall":
+            w.end(0)
+        elif amc and n < a + 1 + r:
             w.half_bit(1, amc)
             w.end(0)
         else:
@@ -244,6 +260,8 @@ def run(scn):
             classes.add("overrun")
         if op.get("abort_mid_clock") and n < total:
             probes["abort_mid_clock"] += 1
+        if op.get("release_on_edge") and n < total:
+            probes["cs_released_in_sck_" + op["release_on_edge"] + "_cycle"] += 1
         if len(set(h for p in op["halves"] for h in p)) > 1:
             probes["jittered_clock"] += 1
         if ti > 0:
@@ -416,7 +434,7 @@ def shrink_candidates(scn):
             cand = copy.deepcopy(scn)
             cand["ops"][i]["halves"] = [[3, 3]]
             yield cand
-        for k in ("sfr_mid", "sfr_set", "abort_mid_clock", "last_low"):
+        for k in ("sfr_mid", "sfr_set", "abort_mid_clock", "last_low", "release_on_edge"):
             if k in op:
                 cand = copy.deepcopy(scn)
                 del cand["ops"][i][k]
